@@ -211,6 +211,11 @@ class Farm:
         shutil.rmtree(d, ignore_errors=True)
         os.makedirs(d)
         res = {"key": "regen:" + key, "dir": d, "status": "ok", "detail": ""}
+        # the output files may exist already (an earlier run for a larger struct): they must be replaced, not overwritten in place
+        stale = "package main\n\n// left over from an earlier run\n" + "".join("type Old%d struct {\n\tField%d int64 `parquet:\"field_%d\"`\n}\n\n" % (i, i, i) for i in range(120))
+        for fn in ("rec.go", "parquet.go"):
+            with open(os.path.join(d, fn), "w") as f:
+                f.write(stale)
         r = subprocess.run([self.gen, "-parquet", parquet_file, "-type", "Rec", "-package", "main", "-output", "parquet.go", "-struct-output", "rec.go"],
                            cwd=d, capture_output=True, text=True)
         if r.returncode != 0 or not os.path.exists(os.path.join(d, "rec.go")) or not os.path.exists(os.path.join(d, "parquet.go")):
